@@ -350,7 +350,8 @@ def run(ctx):
     need = ["sets_len_9_10_fixed", "sets_len_11_12_reflect", "sets_len_13_up", "builds_with_superseded",
             "builds_with_dropped", "filters_with_dropped", "cmp_equal", "cmp_unequal", "record_hits", "long_lists",
             "iter_open_set", "iter_open_merge", "iter_Next", "iter_next_false", "iter_Attribute", "iter_IndexedAttribute",
-            "iter_Label", "iter_IndexedLabel", "iter_Len", "iter_ToSlice", "iter_toslice_midway", "sweeps"]
+            "iter_Label", "iter_IndexedLabel", "iter_Len", "iter_ToSlice", "iter_toslice_midway", "sweeps",
+            "marshal_json_decoded"]
     need += ["size_%s_%d" % (route, k) for route in ("New", "NewF", "NewFDrop", "Filter", "FilterDrop") for k in range(0, 13)]
     missing = [k for k in need if not res["counters"].get(k)]
     if missing:
@@ -358,7 +359,7 @@ def run(ctx):
     ctx.extra["random_sizes_hit"] = {route: [res["counters"].get("size_%s_%d" % (route, k), 0) for k in range(0, 14)]
                                      for route in ("New", "NewF", "NewFDrop", "Filter", "FilterDrop")}
     # ---- concurrent use of immutable Sets (code -> spec, same oracle)
-    conc_phase(ctx, binp, "conc", (0, 1200 if th else 400, 20000 if th else 6000))
+    conc_phase(ctx, binp, "conc", (0, 1200 if th else 400, 60000 if th else 20000))
     if th:
         # auxiliary monitor: the same phase under the race detector (goroutines only read shared Sets)
         binr = ctx.go_build("c05", race=True)
